@@ -205,8 +205,8 @@ func (skiplist *skiplist) getRank(member string, score float64) int64 {
 			x = x.level[i].forward
 		}
 
-		/* x might be equal to zsl->header, so test if obj is non-NULL */
-		if x.Member == member {
+		/* x might be equal to zsl->header, whose member is the empty string: it is not an element */
+		if x != skiplist.header && x.Member == member {
 			return rank
 		}
 	}
